@@ -163,7 +163,7 @@ pub fn expectation(cfg: &Cfg, a: &Analysis, all_productive: bool, input: &[u16])
             }
             Ok(Expect::Reject(ix))
         }
-        Parse::Diverged => Err("reference LR(1) driver diverged".into()),
+        Parse::Diverged => Err("skip: reference LR(1) driver exceeded its step bound".into()),
     }
 }
 
@@ -204,6 +204,7 @@ pub fn judge_case(ctx: &Ctx, c: &E2Case, which: Which) -> Result<Vec<Expect>, Fa
     for inp in &c.inputs {
         match expectation(&cfg, &a, all_productive, inp) {
             Ok(e) => expects.push(e),
+            Err(m) if m.starts_with("skip:") => return Err(Failure::internal("skip:reference-step-bound", m, case_json(c, Some(inp)))),
             Err(m) => return Err(Failure::internal("oracle-inconsistency", m, case_json(c, Some(inp)))),
         }
     }
@@ -232,7 +233,8 @@ pub fn judge_case(ctx: &Ctx, c: &E2Case, which: Which) -> Result<Vec<Expect>, Fa
                 format!("the emitted module (conventional names) does not compile, so there is no parse function:\n{}", first_errors(&alone.diagnostics)),
                 case0,
             )),
-            _ => Err(Failure::internal("emitted-parser-does-not-compile", format!("C01/C05 judge this:\n{}", first_errors(&alone.diagnostics)), case0)),
+            // C01 / C05 judge this; the search of C02 / C03 goes on with other grammars (counted as discarded)
+            _ => Err(Failure::internal("skip:emitted-parser-does-not-compile", first_errors(&alone.diagnostics), case0)),
         };
     }
     let run = e2::run_binary(&scratch.dir, "client", &[], Duration::from_secs(20), 2 << 30);
@@ -417,7 +419,14 @@ fn e2_test(ctx: &Ctx, raw: &RawE2, which: Which, st: &mut Stats) -> Result<(), F
         st.discard("kiki rejects a grammar the reference finds conflict-free (C04 judges that)");
         return Ok(());
     }
-    let expects = judge_case(ctx, &case, which)?;
+    let expects = match judge_case(ctx, &case, which) {
+        Ok(e) => e,
+        Err(f) if f.internal && f.kind.starts_with("skip:") => {
+            st.discard(if f.kind.contains("step-bound") { "reference driver exceeded its step bound" } else { "emitted module does not compile (C01/C05 judge that)" });
+            return Ok(());
+        }
+        Err(f) => return Err(f),
+    };
     let cfgc = cfg::canon(&case.spec.cfg());
     let n_acc = expects.iter().filter(|e| matches!(e, Expect::Accept(_))).count();
     st.class_n("inputs:accepted", n_acc as u64);
